@@ -144,7 +144,7 @@ var clauseKeywords = map[string]bool{
 	"trusted": true, "loop": true, "decreases": true, "props": true, "noinline": true, "callreq": true,
 	"mustcall": true, "callassert": true, "havoc": true, "replay": true, "bounded": true, "nofork": true,
 	"ghost-effect": true, "known": true, "assume-ensures": true, "opaque": true, "paths": true,
-	"timeout": true, "unroll": true, "nosafe": true, "calls": true, "reads": true, "typeinv": true, "inline-calls": true, "no-visibility-frame": true, "count-calls": true, "callers": true, "rank": true, "aftercall": true, "stable": true, "only-writers": true, "by-induction": true, "recursion-bounded": true, "terminates": true, "dispatch": true, "dynamic-ensures": true, "forget": true, "preserves": true,
+	"timeout": true, "unroll": true, "nosafe": true, "calls": true, "reads": true, "typeinv": true, "inline-calls": true, "no-visibility-frame": true, "count-calls": true, "callers": true, "rank": true, "aftercall": true, "stable": true, "only-writers": true, "extern-callers": true, "by-induction": true, "recursion-bounded": true, "terminates": true, "dispatch": true, "dynamic-ensures": true, "forget": true, "preserves": true,
 }
 
 // loadSpecs reads every zz_verif_contracts*.go under root.
